@@ -708,6 +708,8 @@ def gen_scenario(prop, seed, tier, faults_enabled=None, nclients=None, segments_
             kw["dt"] = rng.choice(W.DT_CHOICES + [0.5, 1.0, 2.0])
             if rng.random() < 0.3:
                 kw["force_lattice"] = True
+            if rng.random() < 0.15:
+                kw["low_tmin"] = True
         else:
             kw["method"] = rng.choice(GOOD_METHODS)
             kw["overshoot"] = prop in ("C14",) and rng.random() < 0.05
